@@ -19,8 +19,7 @@ check `validPerm` (`hvp`). -/
 theorem resolve_c01_singleRouter (S : Scalar α) (e : Env α) (par : Bool) (f : Nat → α) (perm : List Nat)
     (maxLow : Nat) (carve : Bool) (L : Fs.Router.Laws (routerOps S))
     (hnb : ∀ i, i < e.topo.n → ∀ p, p ∈ e.topo.nbrs i → p.1 < e.topo.n)
-    (hlow : ∀ i p, Fs.Router.cand (routerOps S) e.mask f i p = true →
-      S.lt S.lowest (S.div (S.sub (f i) (f p.1)) p.2) = true)
+    (hlow : Fs.C04.HLow S e f)
     (next_gt : ∀ x, S.lt x (S.nextUp x) = true)
     (hwork : work e.topo (singleRouter S e par f).dfs < Mst.none)
     (hvp : validPerm S (cbOf S e (singleRouter S e par f) f).edges perm = true)
